@@ -188,6 +188,6 @@ def subchecks():
     return [
         Sub("small-exhaustive", run_small, enum=enum_small, exhaustive=True, timeout=(900, 20000),
             rule="k=1..8 (thorough 1..12): all words x all 0/1/2-flip patterns + disabled pass-through"),
-        Sub("large", run_large, strategy=st_large, examples=(64, 1500), timeout=(900, 20000),
+        Sub("large", run_large, strategy=st_large, examples=(48, 1500), timeout=(900, 20000),
             rule="k in 9..128: boundary/generated words x all single flips x generated double flips; linearity"),
     ]
